@@ -285,6 +285,9 @@ def run_case(case, rec, mon=None):
                 except Exception:
                     continue  # recorded by the factory hook
                 Ns = sorted({0, max(0, fl // 2 - 1), fl // 2, fl, fl + 1, fl + fs, 3 * fl + int(rng.integers(0, fs + 1)), int(rng.integers(fl, 6 * fl + 10))})
+                # the last length with k frames and the first with k + 1 (with sparse frames, fs > fl, the tail may hold
+                # room for a frame that is not due)
+                Ns = sorted(set(Ns) | {max(0, k * fs + fs - fs // 2 - 1 + j) for k in (2, 3) for j in (-2, 0, 1)} | {3 * fs - 1, 3 * fs})
                 for N in Ns:
                     x = gen.signal(rng, N, None, np.float32 if (prec == "f32" and rng.random() < 0.5) else np.float64)
                     with torch.no_grad():
